@@ -230,6 +230,30 @@ pub fn run_history(acc: &mut Acc, r: &mut Rng, steps: u64) {
             }
             ok = res.is_ok();
             class.push(2);
+        } else if op < 42 && m.bonded.get(&(ui, di)).copied().unwrap_or(0) >= 80 {
+            // burst: more pending unbondings of one (user, denom) than the contract's page size of 30
+            let n = r.range(31, 36);
+            what = format!("burst of {n} unbonds user{ui} {d} from @{now}");
+            wd.ops.push(what.clone());
+            ok = true;
+            for k in 0..n {
+                if k > 0 {
+                    advance(&mut wd.app, 0, 1);
+                }
+                let ts = wd.app.block_info().time.nanos();
+                let amount = 1 + (k as u128 % 2);
+                let res = exec(&mut wd.app, &usr, &wd.core.lair.clone(), &lm::ExecuteMsg::Unbond { asset: asset(d, amount) }, &[]);
+                if res.is_ok() {
+                    acc.count("unbond.ok");
+                    *m.bonded.entry((ui, di)).or_insert(0) -= amount;
+                    m.unbonding.entry((ui, di)).or_default().push(Rec { amount, ts });
+                    last_unbond = Some((ui, di, ts));
+                } else {
+                    acc.count("unbond.rejected");
+                }
+            }
+            acc.count("unbond.burst-over-30-pending");
+            class.push(6);
         } else if op < 70 {
             let have = m.bonded.get(&(ui, di)).copied().unwrap_or(0);
             // sometimes repeat the previous unbond's (user, denom) in the same block
